@@ -35,6 +35,8 @@ struct World {
   uint64_t bad0 = 0;  // foreign/double delete[] count before this history
 };
 struct EwOp { double operator()(double a, double b) const { return a * b; } };
+// a user operation that fails in the middle of the evaluation (after k element pairs)
+struct ThrowAfter { int* n; int k; double operator()(double a, double b) const { if ((*n)++ >= k) throw std::runtime_error("user operation failed"); return a * b; } };
 
 static std::vector<double>& mvals(World& w, Slot& s) { return s.kind == EXT ? w.bm[s.buf] : s.vals; }
 static void fail_ctx(World& w, const std::string& sig, const std::string& msg) { throw Fail(sig, msg + " :: history: " + w.log); }
@@ -220,6 +222,10 @@ void run_case(ByteSource& bs, CaseInfo& ci) {
         bool mj = false, mk = false, unary = false;
         switch (form) { case 1: case 4: case 5: case 6: case 7: case 9: mj = true; break; case 2: case 10: mk = true; break; case 3: case 11: mj = mk = true; break; default: break; }
         if (form == 5 || form == 6 || form == 7) unary = true;
+        // (tail byte) the expression is an element-wise operation whose user functor throws part way: whatever storage changed hands must
+        // end up with exactly one owner, and a user buffer must not reach the allocator
+        bool throwing = bs.tail_at(40) % 6 == 1;
+        if (throwing) { form = 13; mj = true; mk = false; unary = false; }
         if (mj && mk && j == k) continue;
         if (unary) mk = false;
         double sc = bs.num(6);
@@ -241,7 +247,8 @@ void run_case(ByteSource& bs, CaseInfo& ci) {
         }
         if (!construct) touch_consumed(w, i);
         bool target_ext = !construct && S.spec && S.kind == EXT;
-        bool must_throw = target_ext && S.d != d;
+        bool must_throw = (target_ext && S.d != d) || throwing;
+        int calls = 0, kthrow = throwing ? (int)(bs.tail_at(41) % (unsigned)(d * d)) : 0;
         bool alias_ext = target_ext && ((J.kind == EXT && J.buf == S.buf) || (K.kind == EXT && K.buf == S.buf));
         (void)alias_ext;
         SU_vector &A = *J.v, &B = *K.v;
@@ -261,7 +268,8 @@ void run_case(ByteSource& bs, CaseInfo& ci) {
     case 9: ASSIGN(squids::ElementwiseProduct(std::move(A), B)); break;                                  \
     case 10: ASSIGN(squids::ElementwiseProduct(A, std::move(B))); break;                                 \
     case 11: ASSIGN(squids::ElementwiseProduct(std::move(A), std::move(B))); break;                      \
-    default: ASSIGN(squids::iCommutator(A, B)); break;                                                   \
+    case 12: ASSIGN(squids::iCommutator(A, B)); break;                                                   \
+    default: ASSIGN(squids::ElementwiseOperation(ThrowAfter{&calls, kthrow}, std::move(A), B)); break;   \
   }
 #define DO_ASSIGN(E) (*S.v = (E))
 #define DO_CONSTRUCT(E) S.v.reset(new SU_vector(E))
@@ -270,6 +278,16 @@ void run_case(ByteSource& bs, CaseInfo& ci) {
         snprintf(nm, sizeof nm, "s%d%sexpr%u(s%d%s,s%d%s)%s", i, construct ? ":=" : "=", form, j, mj ? "&&" : "", k, mk ? "&&" : "", threw ? "(threw)" : "");
         w.log += nm; w.log += "; ";
         if (threw != must_throw) fail_ctx(w, "C08|expression-assign|exception-policy", fmt("threw=%d expected=%d", (int)threw, (int)must_throw));
+        if (threw && throwing) {
+          // the evaluation may have run in place in the operand's storage: its values (and those of a user buffer it is bound to) are
+          // whatever the interrupted evaluation left; operand and target are valid but unspecified from here on
+          ci.label("user-operation-throws");
+          if (J.kind == EXT) for (int q = 0; q < BUFN; q++) w.bm[J.buf][q] = w.buf[J.buf][q];
+          bool jext = J.kind == EXT || J.ext_origin;
+          if (j != i) make_unspecified(w, j, i);
+          if (construct) S = Slot();
+          else { if (S.kind == EXT) for (int q = 0; q < BUFN; q++) w.bm[S.buf][q] = w.buf[S.buf][q]; bool sext = S.kind == EXT || S.ext_origin || jext; S.spec = false; S.ext_origin = sext; S.vals.clear(); S.consumed_with_live_thief = false; }
+        }
         if (!threw) {
           std::vector<int> cand;
           if (mj && J.kind == EXT) cand.push_back(J.buf);
@@ -382,6 +400,18 @@ void regressions() {
     a = other;   // must not write into t's storage
     CHECK(comps(*t) == tv, "C08|two-vectors-share-storage", "regression: assigning to a consumed operand changed the result (d=%d form=%d)", d, form);
     CHECK(a.Dim() == (unsigned)d && &a[0] != &(*t)[0], "C08|two-vectors-share-storage", "regression: consumed operand and result share storage (d=%d form=%d)", d, form);
+  }
+  // 6ce9f36: a user operation that throws in the middle of a resizing, storage-taking assignment: the operand must not keep the block
+  for (int d = 2; d <= 6; d++) {
+    std::vector<double> c(d * d); for (int i = 0; i < d * d; i++) c[i] = 1.0 + i;
+    SU_vector a(c), b(c), t(2 + (d - 1) % 5);
+    int calls = 0; bool threw = false;
+    try { t = squids::ElementwiseOperation(ThrowAfter{&calls, d}, std::move(a), b); } catch (const std::runtime_error&) { threw = true; }
+    CHECK(threw, "C08|expression-assign|exception-policy", "regression: the user operation's exception did not propagate (d=%d)", d);
+    CHECK(a.Dim() == 0 || &a[0] != &t[0], "C08|two-vectors-share-storage", "regression: after the failed assignment operand and target share a block (d=%d)", d);
+    SU_vector other(d); other.SetAllComponents(-9.0); std::vector<double> tv = comps(t);
+    a = other;
+    CHECK(comps(t) == tv, "C08|two-vectors-share-storage", "regression: writing to the consumed operand changed the target (d=%d)", d);
   }
   // e0e8929: element-wise expressions over empty operands (null dereference at -O2)
   {
